@@ -320,7 +320,15 @@ def judge_revision(session, name, sources, disk_modules, only=None):
                     field = [f for f in before[k] if after[k].get(f) != before[k][f]][0]
                     add(['symbol-differs', field, before[k]['class']], f'{k}: {field}: {before[k][field]!r} -> {after[k].get(field)!r}', m)
                     break
-        db.import_json(ser, data)
+        try:
+            db.import_json(ser, data)
+        except Exception as e:  # noqa
+            add(['second-import-raises', type(e).__name__], f'importing the same data a second time raises {type(e).__name__}: {str(e)[:160]}', m)
+            s = Session(dict(sources))
+            for mm in list(sources) + list(disk_modules):
+                s.load(mm)
+            db, ser = s.db, s.get(IReflectionSerializer)
+            continue
         again = table_of(db, m)
         if again != after:
             add(['second-import-changes'], 'importing the same data twice changes a symbol', m)
